@@ -143,8 +143,12 @@ Proof.
   repeat split.
   - repeat constructor; cbn; intuition discriminate.
   - cbn. intros x Hx. repeat (destruct Hx as [<-|Hx]; [repeat constructor|]). destruct Hx.
-  - intros i j Hi Hj. change (length (means ex_cfg ex_pop)) with 4 in *.
-    destruct i as [|[|[|[|i]]]]; try (exfalso; do 4 apply Nat.succ_lt_mono in Hi; inversion Hi);
-    destruct j as [|[|[|[|j]]]]; try (exfalso; do 4 apply Nat.succ_lt_mono in Hj; inversion Hj);
-    vm_compute; intros HQ; try discriminate HQ; repeat constructor.
+  - intros i j Hi Hj Hlt. change (length (means ex_cfg ex_pop)) with 4 in *.
+    assert (D : forallb (fun i => forallb (fun j =>
+                  implb (Qltb (nth i (means ex_cfg ex_pop) 0%Q) (nth j (means ex_cfg ex_pop) 0%Q))
+                        (nth i [2; 1; 3; 0] 0 <? nth j [2; 1; 3; 0] 0)) (seq 0 4)) (seq 0 4) = true)
+      by (vm_compute; reflexivity).
+    rewrite forallb_forall in D. specialize (D i (proj2 (in_seq _ _ _) (conj (Nat.le_0_l _) Hi))).
+    rewrite forallb_forall in D. specialize (D j (proj2 (in_seq _ _ _) (conj (Nat.le_0_l _) Hj))).
+    apply Qltb_lt in Hlt. rewrite Hlt in D. apply Nat.ltb_lt. exact D.
 Qed.
